@@ -39,7 +39,7 @@ func init() {
 			"with a stopped consumer and buffer capacities {1,2,8,64,10000}, buffer empty or full; sshd pipeline handing a login to an unready correlator; audit processor idle / with lines queued / mid-push), " +
 			"either in the constructively established state or at a tape-chosen scheduler step; plus the assembled daemon cancelled at a taped step under traffic; then a fair schedule with the clock advancing at quiescence: the worker must return within 1 simulated second and 20000 steps " +
 			"and stay silent for 10 further simulated seconds while input remains available; non-trivial = the intended blocking state was reached (probe) before cancel; distinct = distinct (state, capacity, fill, cancel step, schedule hash)",
-		Quick: 3200, Thorough: 140000,
+		Quick: 6400, Thorough: 200000,
 	})
 }
 
